@@ -668,7 +668,8 @@ func (s *sender) checkDuplicateAck(seg *segment) (rtx bool) {
 func (s *sender) handleRcvdSegment(seg *segment) {
 	// Check if we can extract an RTT measurement from this ack.
 	// 如果rtt测量seq小于ack num，更新rto
-	if !s.ep.sendTSOk && s.rttMeasureSeqNum.LessThan(seg.ackNumber) {
+	// (an acknowledgement of data that was never sent measures nothing)
+	if !s.ep.sendTSOk && s.rttMeasureSeqNum.LessThan(seg.ackNumber) && !s.sndNxt.LessThan(seg.ackNumber) {
 		s.updateRTO(time.Now().Sub(s.rttMeasureTime))
 		s.rttMeasureSeqNum = s.sndNxt
 	}
